@@ -22,6 +22,7 @@ class Nlp:
         self.x0 = np.array(opti.debug.value(opti.x, opti.initial())).reshape(-1) if self.nx else np.zeros(0)
         self.p0 = np.array(opti.debug.value(opti.p, opti.initial())).reshape(-1) if self.np_ else np.zeros(0)
         self.rb_names = []
+        self.extra0 = np.zeros(0)
         self.extras = []
         self.R = None
         if readbacks:
@@ -43,6 +44,16 @@ class Nlp:
                     seen.add(h); extras.append(sv)
         self.extras = extras
         self.n_extra = sum(e.numel() for e in extras)
+        # starting values of the inactive decision variables (they are not part of opti.x)
+        self.extra0 = np.zeros(self.n_extra)
+        o = 0
+        for e in extras:
+            try:
+                val = np.array(self.opti.debug.value(e, self.opti.initial())).reshape(-1, order="F")
+                self.extra0[o:o + e.numel()] = val
+            except Exception:
+                pass
+            o += e.numel()
         # inactive *parameters* (not part of opti.p because no row uses them) keep their set value
         self.extra_fixed = {}
         if extras:
